@@ -59,15 +59,60 @@ def _reaches_cycle(res, roots):
     return any(col.get(i, WHITE) == WHITE and dfs(i) for i in roots)
 
 
-def _nc_closure(res, roots):
-    """Non-cached factories reachable from `roots` along paths whose nodes are all non-cached."""
-    seen, stack = set(), [i for i in roots if not res[i]["c"]]
+def _flags(case):
+    """Effective cache flag of every use site: ({(step, factory): flag}, {(factory, dependency): flag}).
+
+    `res[i]["c"]` is the factory's base flag; `steps[s]["flip"]` / `res[i]["flip"]` list the step parameters / dependency
+    edges declared with the opposite flag.  Domain: inside ONE step's dependency closure a factory is used under one flag only
+    (the property does not say what mixing both declarations inside one resolution means); flips that would break this are
+    dropped here, deterministically, so shrunk or hand-written cases stay in the domain.  Across steps flags may differ.
+    """
+    res, steps = case["res"], case["steps"]
+    sflip = {(s, i) for s, sp in enumerate(steps) for i in sp.get("flip", []) if i in sp["res"]}
+    eflip = {(i, j) for i, f in enumerate(res) for j in f.get("flip", []) if j in f["deps"]}
+    while True:
+        sf = {(s, i): res[i]["c"] != ((s, i) in sflip) for s, sp in enumerate(steps) for i in sp["res"]}
+        ef = {(i, j): res[j]["c"] != ((i, j) in eflip) for i, f in enumerate(res) for j in f["deps"]}
+        bad = None
+        for s, sp in enumerate(steps):
+            reach = _closure(res, sp["res"])
+            uses: dict = {}
+            for i in sp["res"]:
+                uses.setdefault(i, set()).add(sf[(s, i)])
+            for i in sorted(reach):
+                for j in res[i]["deps"]:
+                    uses.setdefault(j, set()).add(ef[(i, j)])
+            conflict = sorted(i for i, fl in uses.items() if len(fl) > 1)
+            if conflict:
+                bad = (s, conflict[0], reach)
+                break
+        if bad is None:
+            return sf, ef
+        s, i, reach = bad
+        sflip.discard((s, i))
+        eflip -= {(k, i) for k in reach}
+
+
+def _use_closure(res, ef, root_uses):
+    """{factory: set of flags it is used under} over everything reachable from the (factory, flag) root uses."""
+    uses: dict = {}
+    for i, fl in root_uses:
+        uses.setdefault(i, set()).add(fl)
+    for i in sorted(_closure(res, [i for i, _ in root_uses])):
+        for j in res[i]["deps"]:
+            uses.setdefault(j, set()).add(ef[(i, j)])
+    return uses
+
+
+def _fresh_closure(res, ef, root_uses):
+    """Factories reached from the root uses along use sites that are all non-cached."""
+    seen, stack = set(), [i for i, fl in root_uses if not fl]
     while stack:
         i = stack.pop()
         if i in seen:
             continue
         seen.add(i)
-        stack.extend(j for j in res[i]["deps"] if not res[j]["c"])
+        stack.extend(j for j in res[i]["deps"] if not ef[(i, j)])
     return seen
 
 
@@ -155,14 +200,14 @@ class _Log:
     def scope_exit(self):
         self._leave()
 
-    def get_enter(self, name):
+    def get_enter(self, name, cache=None):
         cur = self._enter()
         g = {"tid": cur[1]["tid"], "f": self.name_to_fi.get(name), "name": name, "s0": self.rec.nseq(), "s1": None, "exc": None, "top": False}
         if not cur[1].get("_nested"):
             # a top-level request of this injection phase (the step's own parameter, or a direct manager.get call)
             g["top"] = True
             if g["f"] is not None:
-                cur[1]["top"].append(g["f"])
+                cur[1]["top"].append((g["f"], bool(cache)))
         cur[1]["_nested"] = cur[1].get("_nested", 0) + 1
         self.gets.append(g)
         return g
@@ -184,14 +229,17 @@ class C22(Prop):
         "cases = one workflow instance whose steps declare Annotated[T, Resource(factory, cache=...)] parameters over a generated "
         "dependency graph of 1-6 factories (sync / async, cache True/False, factories depending on other resources: chains and diamonds, "
         "optionally a genuine cycle incl. self-dependency; async factories take a generated virtual time: no suspension, one bare yield, "
-        "or 1-3 s), declared either through one shared descriptor per factory or a new Resource(...) at every use site; a start step and "
+        "or 1-3 s), declared either through shared descriptors or a new Resource(...) at every use site; in half of the cases the cache flag is chosen per use site (step "
+        "parameter or dependency edge), so one factory function is declared both Resource(f) and Resource(f, cache=False) in different steps; a start step and "
         "1-3 worker steps (num_workers 1..3) request generated overlapping subsets; every run fans 1-4 events out to all worker steps; "
         "1-3 runs of the same instance start at generated instants or one after the other. Factories, the manager entry points "
         "(get / resolution_scope, through a delegating ResourceManager subclass passed as resource_manager=) and step bodies log what "
-        "was built and injected. Oracle: (a) a cached factory runs to completion at most once per instance (a call cancelled together with a failing run created nothing), exactly once if a step that ran needs it, and "
-        "every injection of it (direct or as a dependency) is the identical object; (b) a non-cached factory yields one product per step "
-        "invocation that needs it through non-cached dependencies only: never shared between two invocations, one object inside one "
-        "invocation (diamond), never called twice inside one resolution, and no call whose product nobody received; (c) products are "
+        "was built and injected. Oracle: (a) all CACHED uses of a factory (direct or as a dependency, every step, every run) receive one identical object, made by a call "
+        "that served a cached use; a factory that is only ever declared cached runs to completion at most once per instance (a call cancelled together with a failing "
+        "run created nothing); every needed factory is called; (b) every NON-CACHED use reached from a step's parameters through non-cached use sites gets a product "
+        "made in that step invocation's own worker task: never an object another invocation received, never the object of the cached declaration (and the cached "
+        "declaration never receives a non-cached product, i.e. the cached slot is not overwritten), one object inside one invocation (diamond), never "
+        "two calls inside one resolution, and no call whose product nobody received; (c) products are "
         "wired to the declared dependencies; (d) if a step that runs reaches a dependency cycle every run fails with the documented "
         "ValueError('Circular resource dependency detected ...'); otherwise no run ever fails with it, and every run ends with its result "
         "before the virtual horizon. Non-trivial = the injection phases of two step invocations interleaved (one was requested while "
@@ -201,7 +249,7 @@ class C22(Prop):
         "observation goes through a ResourceManager subclass given to Workflow(resource_manager=...) that only logs and delegates get() / resolution_scope(); factories and step bodies are harness code",
         "one worker task per step invocation (control loop): factory calls and the step body of one invocation are attributed to each other by asyncio.current_task()",
         "no retry policies: a failed injection fails the run with the factory/manager exception itself",
-        "one cache flag per factory (the documented usage); a factory declared cached in one place and non-cached in another is not generated",
+        "a factory may be declared cached in one step and non-cached in another (as in the package's test_non_caching_behavior), but inside ONE step's dependency closure each factory is used under one flag only: the property does not define what mixing both declarations inside a single resolution means; out-of-domain flips are dropped deterministically (_flags)",
         "schedules are generated as virtual durations + tie-break choices on the deterministic virtual-time loop (SimRuntime only adds the tie-breaks)",
     ]
     budgets = {"quick": 2400, "thorough": 6000}
@@ -224,7 +272,7 @@ class C22(Prop):
                 return _ScopeProxy(super().resolution_scope(*a, **k), self._c22_log)
 
             async def get(self, resource, *a, **k):
-                g = self._c22_log.get_enter(resource.name)
+                g = self._c22_log.get_enter(resource.name, getattr(resource, "cache", None))
                 exc = None
                 try:
                     return await super().get(resource, *a, **k)
@@ -273,13 +321,28 @@ class C22(Prop):
             runs = []
             for _ in range(draw(st.integers(1, 3))):
                 runs.append({"at": draw(st.sampled_from([0, 0, 0, 1, 2, 4, "after"])), "n": draw(st.integers(1, 4))})
-            return {
+            if draw(st.integers(0, 1)):
+                # one factory declared both ways: some step parameters / dependency edges use the opposite cache flag
+                for sp in steps:
+                    sp["flip"] = [i for i in sp["res"] if draw(st.integers(0, 2)) == 0]
+                for f in res:
+                    f["flip"] = [j for j in f["deps"] if draw(st.integers(0, 5)) == 0]
+            out = {
                 "res": res,
                 "desc": draw(st.sampled_from(["shared", "per_use"])),
                 "steps": steps,
                 "runs": runs,
                 "ties": draw(st.lists(st.integers(0, 7), max_size=8)),
             }
+            # keep only the flips that are inside the domain (one flag per factory inside one step's closure)
+            sf, ef = _flags(out)
+            for s, sp in enumerate(steps):
+                if "flip" in sp:
+                    sp["flip"] = [i for i in sp["flip"] if sf[(s, i)] != res[i]["c"]]
+            for i, f in enumerate(res):
+                if "flip" in f:
+                    f["flip"] = [j for j in f["flip"] if ef[(i, j)] != res[j]["c"]]
+            return out
 
         return case()
 
@@ -332,13 +395,14 @@ class C22(Prop):
             factories.append(fn)
             log.name_to_fi[fn.__qualname__] = i
 
-        shared = [Resource(fn, cache=res[i]["c"]) for i, fn in enumerate(factories)]
+        sf, ef = _flags(case)
+        shared = {(i, fl): Resource(fn, cache=fl) for i, fn in enumerate(factories) for fl in (True, False)}
 
-        def desc(i):
-            return shared[i] if case["desc"] == "shared" else Resource(factories[i], cache=res[i]["c"])
+        def desc(i, fl):
+            return shared[(i, fl)] if case["desc"] == "shared" else Resource(factories[i], cache=fl)
 
         for i, f in enumerate(res):
-            factories[i].__annotations__ = {**{f"p{j}": Annotated[Prod, desc(j)] for j in f["deps"]}, "return": Prod}
+            factories[i].__annotations__ = {**{f"p{j}": Annotated[Prod, desc(j, ef[(i, j)])] for j in f["deps"]}, "return": Prod}
 
         nsteps = len(case["steps"])
         nworkers = nsteps - 1
@@ -376,7 +440,7 @@ class C22(Prop):
             fn.__annotations__ = {
                 "ctx": Context,
                 "ev": ge.GStart if si == 0 else ge.E0,
-                **{f"r{i}": Annotated[Prod, desc(i)] for i in sp["res"]},
+                **{f"r{i}": Annotated[Prod, desc(i, sf[(si, i)])] for i in sp["res"]},
                 "return": U[ge.E0, N] if si == 0 else ge.E4,
             }
             members[name] = step(num_workers=sp["w"])(fn)
@@ -501,72 +565,107 @@ class C22(Prop):
                 r.v("step_got_wrong_injection", want=want)
                 break
 
-        def walk(roots, through_cached):
-            """All products reachable from `roots`; optionally not descending below cached products."""
-            out, stack, seen = [], list(roots), set()
-            while stack:
-                p = stack.pop()
-                if not isinstance(p, Prod) or id(p) in seen:
-                    continue
-                seen.add(id(p))
-                out.append(p)
-                if through_cached or not res[p.fi]["c"]:
-                    stack.extend(p.deps.values())
-            return out
+        sf, ef = _flags(case)
+        step_uses = [[(i, sf[(si, i)]) for i in sp["res"]] for si, sp in enumerate(steps)]
+        used_nc = {i for si in range(len(steps)) for i, fl in _use_closure(res, ef, step_uses[si]).items() if False in fl}
+        used_c = {i for si in range(len(steps)) for i, fl in _use_closure(res, ef, step_uses[si]).items() if True in fl}
+        phase_of = {}
+        for ph in log.phases:
+            phase_of.setdefault(ph["tid"], ph)  # first phase of the task = the step's injection phase
+        call_of = {c["serial"]: c for c in log.calls}
 
-        # ---- (a) cached: one call, identical object everywhere
+        # ---- every use occurrence in what the invocations received: (factory, use flag, product); "fresh" = reached from the
+        # step's own parameters through non-cached use sites only
+        all_serials: set = set()
+        c_occ: dict = {}  # factory -> {serial: index of the first invocation that saw it at a CACHED use site}
+        nc_occ: dict = {}  # factory -> {serial: index of the first invocation that saw it at a NON-CACHED use site}
+        fresh = []  # per invocation: {factory: set of serials}
+        for x, inv in enumerate(log.invs):
+            fr: dict = {}
+            seen = set()
+            stack = [(sf[(inv["step"], i)], p, True) for i, p in inv["inj"].items() if isinstance(p, Prod) and (inv["step"], i) in sf]
+            while stack:
+                fl, p, path_nc = stack.pop()
+                if not isinstance(p, Prod):
+                    continue
+                key = (id(p), fl, path_nc)
+                if key in seen:
+                    continue
+                seen.add(key)
+                all_serials.add(p.serial)
+                (c_occ if fl else nc_occ).setdefault(p.fi, {}).setdefault(p.serial, x)
+                is_fresh = path_nc and not fl
+                if is_fresh:
+                    fr.setdefault(p.fi, set()).add(p.serial)
+                for j, q in p.deps.items():
+                    stack.append((ef.get((p.fi, j), res[j]["c"] if j < nf else True), q, is_fresh))
+            fresh.append(fr)
+
+        reported = set()
+
+        def shared_violation(i, tid_a, tid_b, **extra):
+            """a product of factory i made for a non-cached use in worker task tid_a also reached the invocation of task tid_b."""
+            if ("share", i) in reported:
+                return
+            reported.add(("share", i))
+            ia, ib = by_tid_inv.get(tid_a), by_tid_inv.get(tid_b)
+            pa, pb = phase_of.get(tid_a), phase_of.get(tid_b)
+            ov = bool(pa and pb and (interleaved(pa, pb) or interleaved(pb, pa)))
+            r.v("noncached_shared_across_invocations", concurrent_resolutions=concurrent(pa) or concurrent(pb), these_two_overlap=ov,
+                same_step=bool(ia and ib and ia["step"] == ib["step"]), same_run=bool(ia and ib and ia["k"] == ib["k"]), is_async=res[i]["a"], **extra)
+
+        def made_for_noncached_use(sn):
+            """the call that made product sn ran in a worker task whose step uses that factory non-cached."""
+            c = call_of.get(sn)
+            ph = phase_of.get(c["tid"]) if c is not None else None
+            return ph is not None and _use_closure(res, ef, ph["top"]).get(c["f"]) == {False}
+
+        # ---- (a) cached uses: one object per instance, made by one completed call
         ncalls = [0] * nf
         for c in log.calls:
             ncalls[c["f"]] += 1
-        needed = _closure(res, [i for inv in log.invs for i in steps[inv["step"]]["res"]]) if not cyclic else set()
-        all_reach = walk([p for inv in log.invs for p in inv["inj"].values()], True)
+        needed = set() if cyclic else {i for inv in log.invs for i in _use_closure(res, ef, step_uses[inv["step"]])}
         for i, f in enumerate(res):
-            if not f["c"]:
-                continue
-            # calls that ran to completion; a call cancelled with its run (another step failed) created nothing
-            cs = [c for c in log.calls if c["f"] == i and c["s1"] is not None]
-            if len(cs) > 1:
+            cs = [c for c in log.calls if c["f"] == i and c["s1"] is not None]  # completed calls (a call cancelled with its run created nothing)
+            if i in used_c and i not in used_nc and len(cs) > 1:
                 cs.sort(key=lambda c: c["s0"])
                 ov = any(cs[x + 1]["s0"] < cs[x]["s1"] for x in range(len(cs) - 1))
                 r.v("cached_factory_called_more_than_once", calls=len(cs), overlapping_calls=ov, is_async=f["a"])
             if not cyclic and not failed_any and i in needed and len(cs) == 0:
-                r.v("cached_factory_never_called")
-            serials = {p.serial for p in all_reach if p.fi == i}
-            if len(serials) > 1:
-                r.v("cached_injection_not_identical", distinct=len(serials), calls=len(cs))
+                r.v("factory_never_called", cached_use=i in used_c)
+            cached_seen = c_occ.get(i, {})
+            borrowed = sorted(sn for sn in cached_seen if sn in nc_occ.get(i, {}) or made_for_noncached_use(sn))
+            own = [sn for sn in cached_seen if sn not in borrowed]
+            if len(own) > 1:
+                r.v("cached_injection_not_identical", distinct=len(own), calls=len(cs), declared_both_ways=i in used_nc)
+            for sn in borrowed:
+                # the object handed to a cached use is one that was made for / handed to a non-cached use
+                maker = call_of[sn]["tid"] if made_for_noncached_use(sn) else log.invs[nc_occ[i][sn]]["tid"]
+                shared_violation(i, maker, log.invs[cached_seen[sn]]["tid"], cached_use=True)
 
-        # ---- (b) non-cached
-        fresh = []  # per invocation: {factory: set of serials} along non-cached-only paths
-        for inv in log.invs:
-            d: dict = {}
-            for p in walk(list(inv["inj"].values()), False):
-                if not res[p.fi]["c"]:
-                    d.setdefault(p.fi, set()).add(p.serial)
-            fresh.append(d)
-        phase_of = {}
-        for ph in log.phases:
-            phase_of.setdefault(ph["tid"], ph)  # first phase of the task = the step's injection phase
-        reported = set()
+        # ---- (b) non-cached uses: a product of the invocation's own, not shared, one per resolution
         for x, inv in enumerate(log.invs):
-            want = _nc_closure(res, steps[inv["step"]]["res"])
-            for i in want:
+            want = _fresh_closure(res, ef, step_uses[inv["step"]])
+            for i in sorted(want):
                 n = len(fresh[x].get(i, ()))
                 if n > 1 and ("multi", i) not in reported:
                     reported.add(("multi", i))
                     r.v("noncached_not_shared_within_invocation", distinct=n)
             for y in range(x):
-                other = log.invs[y]
-                for i in set(fresh[x]) & set(fresh[y]):
-                    if fresh[x][i] & fresh[y][i] and ("share", i) not in reported:
-                        reported.add(("share", i))
-                        pa, pb = phase_of.get(other["tid"]), phase_of.get(inv["tid"])
-                        ov = bool(pa and pb and (interleaved(pa, pb) or interleaved(pb, pa)))
-                        r.v("noncached_shared_across_invocations", concurrent_resolutions=concurrent(pa) or concurrent(pb), these_two_overlap=ov,
-                            same_step=other["step"] == inv["step"], same_run=other["k"] == inv["k"], is_async=res[i]["a"])
+                for i in sorted(set(fresh[x]) & set(fresh[y])):
+                    if fresh[x][i] & fresh[y][i]:
+                        shared_violation(i, log.invs[y]["tid"], inv["tid"])
+            for i in sorted(fresh[x]):
+                for sn in sorted(fresh[x][i]):
+                    c = call_of.get(sn)
+                    if c is not None and c["tid"] != inv["tid"]:
+                        # made by (and for) another step invocation
+                        shared_violation(i, c["tid"], inv["tid"], made_by_other_invocation=True)
         # never twice inside one resolution (calls attributed by task)
         per_task: dict = {}
         for c in log.calls:
-            if not res[c["f"]]["c"]:
+            inv = by_tid_inv.get(c["tid"])
+            if inv is not None and c["f"] in _fresh_closure(res, ef, step_uses[inv["step"]]):
                 per_task.setdefault((c["tid"], c["f"]), []).append(c)
         for (tid, i), cs in per_task.items():
             if len(cs) > 1:
@@ -576,10 +675,10 @@ class C22(Prop):
                     break
         # every call's product was received by somebody
         if not failed_any:
-            got = {p.serial for p in all_reach}
             for c in log.calls:
-                if c["serial"] not in got:
-                    r.v("factory_call_product_dropped", cached=res[c["f"]]["c"], other_resolution_open=other_open_at(c["tid"], c["s0"]))
+                if c["serial"] not in all_serials:
+                    r.v("factory_call_product_dropped", declared_cached=c["f"] in used_c, declared_noncached=c["f"] in used_nc,
+                        other_resolution_open=other_open_at(c["tid"], c["s0"]))
                     break
             # every invocation that ran was one the case asked for
             want_inv = sum(1 + x["n"] * (len(steps) - 1) for x in runs)
@@ -587,25 +686,24 @@ class C22(Prop):
                 r.v("invocation_count", got=len(log.invs), want=want_inv)
 
         # ---- non-triviality and classes
-        first_done = {}
+        first_done = {}  # when the object of the cached declaration became available
         for c in log.calls:
-            if res[c["f"]]["c"] and c["s1"] is not None:
+            if c["s1"] is not None and (c["f"] not in used_nc or c["serial"] in c_occ.get(c["f"], {})):
                 first_done[c["f"]] = min(first_done.get(c["f"], 1 << 60), c["s1"])
-        nontriv = ov_cached = ov_nc = False
+        ov_cached = ov_nc = False
         phs = [p for p in log.phases if p["top"]]
+        clos = [_use_closure(res, ef, p["top"]) for p in phs]
         for a in range(len(phs)):
             for b in range(len(phs)):
                 p, q = phs[a], phs[b]
                 if p["tid"] == q["tid"] or not interleaved(p, q):
                     continue
-                common = _closure(res, p["top"]) & _closure(res, q["top"])
-                for i in common:
-                    if not res[i]["c"]:
+                for i in sorted(set(clos[a]) & set(clos[b])):
+                    if False in clos[a][i] or False in clos[b][i]:
                         ov_nc = True
-                    elif first_done.get(i, 1 << 60) > q["s_req"]:
+                    if (True in clos[a][i] or True in clos[b][i]) and first_done.get(i, 1 << 60) > q["s_req"]:
                         ov_cached = True
-        nontriv = ov_cached or ov_nc
-        r.nontrivial = nontriv
+        r.nontrivial = ov_cached or ov_nc
         if ov_cached:
             r.classes.append("overlap_cached_being_built")
         if ov_nc:
@@ -626,9 +724,12 @@ class C22(Prop):
             r.classes.append("descriptor_per_use")
         if failed_any:
             r.classes.append("run_failed")
-        if any(not f["c"] for f in res):
+        if used_nc:
             r.classes.append("has_noncached")
+        if used_c & used_nc:
+            r.classes.append("factory_declared_both_ways")
+        if any(c_occ.get(i) and nc_occ.get(i) for i in range(nf)):
+            r.classes.append("both_declarations_injected")
         r.sample = {"case": case, "factory_calls": ncalls, "invocations": len(log.invs), "outcomes": [o["kind"] for o in outcomes]}
-
 
 PROP = C22
